@@ -359,8 +359,6 @@ func GetHTTPRequest(ctx *core.Context, r *http.Request) (map[string]interface{},
 		}
 
 	default:
-		m["uri"] = r.URL.Path
-
 		switch r.Method {
 		case "POST":
 			var js []byte
@@ -384,6 +382,10 @@ func GetHTTPRequest(ctx *core.Context, r *http.Request) (map[string]interface{},
 				}
 			}
 		}
+
+		// Last: the operation is the one the request was sent to,
+		// whatever "uri" its body or query string carries.
+		m["uri"] = r.URL.Path
 	}
 
 	io.Copy(ioutil.Discard, r.Body)
@@ -394,7 +396,7 @@ func GetHTTPRequest(ctx *core.Context, r *http.Request) (map[string]interface{},
 
 func protest(ctx *core.Context, err error, w http.ResponseWriter) {
 	w.WriteHeader(http.StatusBadRequest)
-	fmt.Fprintf(w, err.Error())
+	fmt.Fprint(w, err.Error())
 }
 
 func (s *HTTPService) ServeHTTP(w http.ResponseWriter, r *http.Request) {
